@@ -100,6 +100,10 @@ def build_program(ctx, prog, tag, fill=None):
     rc, out, err = sh(cmd + ["-o", exe, src], timeout=120)
     if rc != 0:
         raise RuntimeError("e2e program does not compile (%s): %s" % (prog["variant"], err[-1500:]))
+    rc, out, err = sh(["readelf", "-SW", exe], check=True)
+    # what mcount_arch_find_module decides: the section wins (DYNAMIC_PATCHABLE), else NOPs at the start of the
+    # first ordinary functions (DYNAMIC_FENTRY_NOP)
+    ty = 5 if "__patchable_function_e" in out else 3
     prog["exe"], prog["dir"], prog["ty"] = exe, d, ty
     # symbols and text segment
     rc, out, err = sh(["nm", "-S", "--defined-only", exe], check=True)
@@ -354,7 +358,9 @@ def run(ctx, objdir, h):
             txt = ("`uftrace record -P .` kills a program whose executable segment ends %d bytes before a page "
                    "boundary (pr_err in mcount_setup_trampoline: mmap MAP_FIXED_NOREPLACE -> EEXIST)"
                    % ((-(c["text_addr"] + c["text_size"])) % 4096))
-            if ctx.kf.listed("C14", base.KNOWN_KEY):
+            if ctx.kf.listed("C14", base.KNOWN_KEY) and base.KNOWN_KEY in ctx.known_printed and still:
+                pass                      # already printed for the in-process witness
+            elif ctx.kf.listed("C14", base.KNOWN_KEY):
                 ctx.known_finding(base.KNOWN_KEY, txt, still, {"mode": "e2e", "case": case_json(c), "source": c["source"]})
             elif still:
                 ctx.log("DEFECT-CANDIDATE e2e witness (not listed in known-findings.txt): " + txt)
